@@ -13,6 +13,7 @@ func c14Opts(i int) lib.GenOpts {
 	opt.OrderedSiblings = true
 	opt.EmptyContainers = i%3 != 0
 	opt.Density = 0.6
+	opt.ZeroLenBinary = true
 	return opt
 }
 
